@@ -23,8 +23,6 @@ from common import (Stream, budget, enc_op, canon_op_json, to_gq, dyadic, rng_fo
 ONE = 'one'
 
 OPEN_STATEMENTS = [
-    'bk_code_valid: bravyi_kitaev_code(n) valid on all vectors for every n (only the finite test n <= 4 is kernel-checked; '
-    'all n <= 8 (12 thorough) are covered exhaustively by the codes stream)',
     'weight_one_binary_addressing_valid for every exponent (exhaustive for exponent <= 3 only)',
     'int_mul_valid: k * code is valid on the k-fold product domain (append_valid is proved; the iterated form is not)',
     'weight_two_segment_code valid on its whole domain: FALSE on the current tree (known finding C09-w2seg-decoder); '
